@@ -72,6 +72,18 @@ impl GroupB {
                     let base = self.stream.at(rng.below(self.stream.len()));
                     corrupt(&mut rng, &base)
                 },
+                2 if rng.chance(1, 4) => {
+                    // An alternation of a repetition with a zero lower bound and branches of
+                    // invariant size around its upper bound (unions of open and closed ranges).
+                    let n = rng.range(1, 4);
+                    let body = rng.pick_str(&["a", "ab", "a/", "?", "[ab]"]);
+                    let other = "b".repeat(rng.range(n.saturating_sub(1), n * 2 + 1));
+                    match rng.below(3) {
+                        0 => format!("{{<{}:0,{}>,{}}}", body, n, other),
+                        1 => format!("{{{},<{}:0,{}>}}x", other, body, n),
+                        _ => format!("{{<{}:0,{}>,{},<{}:1,{}>}}", body, n, other, body, n + 1),
+                    }
+                },
                 2 => {
                     // Cartesian-product bomb for the variance algebra.
                     let n = rng.range(1, 14);
